@@ -423,6 +423,10 @@ func runC12(tier, replay string) {
 		total += nb
 		run.Set("builder_"+c.name, fmt.Sprintf("%d function bodies built, printed, read back and reformatted", nb))
 	}
+	// B2: builder-side parentheses: every placement of Headers.tla (composite literals in statement heads, also of
+	// instantiated generic types): the text written by the package must parse back to the tree the builder built
+	sth, trh, nh := hdrRun(run, tier)
+	states, transitions, total = states+sth, transitions+trh, total+nh
 	// D: position-stripped standard-library files
 	var files []string
 	for _, dir := range []string{"sort", "strings", "go/ast", "go/token", "container/list", "container/heap", "errors", "bufio", "path", "text/tabwriter", "slices", "maps", "sync", "encoding/json", "go/printer", "go/types", "net/url", "time", "fmt", "regexp/syntax"} {
